@@ -82,17 +82,34 @@ func NodeOf(t reflect.Type) ref.Node {
 	return root
 }
 
+// flatFields lists the fields of a struct the way the library maps them:
+// exported fields in declaration order, with the fields of anonymous (embedded)
+// structs promoted in place.
+func flatFields(t reflect.Type) []reflect.StructField {
+	var out []reflect.StructField
+	var walk func(t reflect.Type, index []int)
+	walk = func(t reflect.Type, index []int) {
+		for i := 0; i < t.NumField(); i++ {
+			f := t.Field(i)
+			f.Index = append(append([]int(nil), index...), i)
+			if f.Anonymous && f.Type.Kind() == reflect.Struct {
+				walk(f.Type, f.Index)
+				continue
+			}
+			if !f.IsExported() || f.Tag.Get("parquet") == "-" {
+				continue
+			}
+			out = append(out, f)
+		}
+	}
+	walk(t, nil)
+	return out
+}
+
 func structFields(t reflect.Type) []ref.Node {
 	var out []ref.Node
-	for i := 0; i < t.NumField(); i++ {
-		f := t.Field(i)
-		if !f.IsExported() {
-			continue
-		}
+	for _, f := range flatFields(t) {
 		ti, _ := parseTag(f, "parquet")
-		if f.Tag.Get("parquet") == "-" {
-			continue
-		}
 		out = append(out, fieldNode(ti, f, f.Type))
 	}
 	return out
@@ -283,20 +300,14 @@ func Fill(rv reflect.Value, n *ref.Node, v ref.V) {
 	case "leaf":
 		fillLeaf(rv, ref.ParseLeaf(n.Leaf), v)
 	case "group":
-		fi := 0
-		for i := 0; i < t.NumField(); i++ {
-			f := t.Field(i)
-			if !f.IsExported() || f.Tag.Get("parquet") == "-" {
-				continue
-			}
+		for fi, f := range flatFields(t) {
 			var fv ref.V
 			if fi < len(v.F) {
 				fv = v.F[fi]
 			} else {
 				fv = defaultV(&n.Children[fi])
 			}
-			Fill(rv.Field(i), &n.Children[fi], fv)
-			fi++
+			Fill(rv.FieldByIndex(f.Index), &n.Children[fi], fv)
 		}
 	case "list":
 		// Null (optional list) was handled above; an empty list is a non-nil
@@ -400,14 +411,8 @@ func extract(rv reflect.Value, n *ref.Node, lax bool) ref.V {
 		return extractLeaf(rv, ref.ParseLeaf(n.Leaf))
 	case "group":
 		out := ref.V{}
-		fi := 0
-		for i := 0; i < t.NumField(); i++ {
-			f := t.Field(i)
-			if !f.IsExported() || f.Tag.Get("parquet") == "-" {
-				continue
-			}
-			out.F = append(out.F, extract(rv.Field(i), &n.Children[fi], lax))
-			fi++
+		for fi, f := range flatFields(t) {
+			out.F = append(out.F, extract(rv.FieldByIndex(f.Index), &n.Children[fi], lax))
 		}
 		return out
 	case "list":
